@@ -23,6 +23,8 @@
 #include <unordered_set>
 #include <variant>
 #include <vector>
+#include <cstdio>
+#include <sys/mman.h>
 
 namespace sc {
 
@@ -221,6 +223,71 @@ template <class T> struct Codec<std::unique_ptr<T>> {
     }
 };
 
+// ---- shared_ptr -------------------------------------------------------------------------
+// Serializer::shared_ptr writes the ADDRESS of the pointee.  To keep ops.txt reproducible the
+// pointees of generated values live in an arena mapped at a fixed address (bump allocation, reset
+// for every top-level value), so their addresses depend on the seed only.  Objects made by UNPACK
+// (make_shared) have unpredictable addresses: results are rendered with LABELS 1,2,.. in order of
+// first occurrence (pre-order), which shows exactly the aliasing graph.
+struct Arena {
+    static constexpr std::uintptr_t kBase = 0x5e0000000000ull;
+    static constexpr std::size_t kSize = std::size_t(64) << 20;
+    char* base = nullptr; std::size_t used = 0;
+    Arena();
+    void* take(std::size_t n, std::size_t al) {
+        std::size_t at = (used + al - 1) / al * al;
+        if (at + n > kSize) throw std::bad_alloc();
+        used = at + n; return base + at;
+    }
+};
+inline Arena::Arena() {
+    void* p = mmap(reinterpret_cast<void*>(kBase), kSize, PROT_READ | PROT_WRITE, MAP_PRIVATE | MAP_ANONYMOUS | MAP_FIXED_NOREPLACE, -1, 0);
+    if (p == MAP_FAILED || reinterpret_cast<std::uintptr_t>(p) != kBase) {   // fall back: addresses then vary between runs
+        if (p != MAP_FAILED) munmap(p, kSize);
+        p = mmap(nullptr, kSize, PROT_READ | PROT_WRITE, MAP_PRIVATE | MAP_ANONYMOUS, -1, 0);
+        if (p == MAP_FAILED) throw std::bad_alloc();
+    }
+    base = static_cast<char*>(p);
+}
+inline Arena& arena() { static Arena a; return a; }
+template <class T> struct ArenaAlloc {
+    using value_type = T;
+    ArenaAlloc() = default;
+    template <class U> ArenaAlloc(const ArenaAlloc<U>&) {}
+    T* allocate(std::size_t n) { return static_cast<T*>(arena().take(n * sizeof(T), alignof(T) < 16 ? 16 : alignof(T))); }
+    void deallocate(T*, std::size_t) {}
+    template <class U> bool operator==(const ArenaAlloc<U>&) const { return true; }
+    template <class U> bool operator!=(const ArenaAlloc<U>&) const { return false; }
+};
+// pools of live pointees per type (aliasing is drawn from them); all emptied for a new value
+inline std::vector<void (*)()>& poolClearers() { static std::vector<void (*)()> v; return v; }
+inline void newGraphEpoch() { for (auto f : poolClearers()) f(); arena().used = 0; }
+struct Labels { std::map<const void*, int> of; int get(const void* p) { auto it = of.find(p); if (it != of.end()) return it->second; int l = static_cast<int>(of.size()) + 1; of[p] = l; return l; } };
+inline Labels& labels() { static Labels l; return l; }
+
+template <class T> struct Codec<std::shared_ptr<T>> {
+    static std::vector<std::shared_ptr<T>>& pool() {
+        static std::vector<std::shared_ptr<T>> p;
+        static bool reg = (poolClearers().push_back([] { Codec<std::shared_ptr<T>>::pool().clear(); }), true);
+        (void)reg; return p;
+    }
+    static std::string ty() { return "P(" + Codec<T>::ty() + ")"; }
+    static std::shared_ptr<T> gen(vh::Rng& r, const GenCfg& c) {
+        if (r.coin(1, 4)) return nullptr;
+        if (!pool().empty() && r.coin(2, 5)) { auto& p = pool(); return p[r.below(p.size())]; }   // a second owner
+        T val = Codec<T>::gen(r, c);                       // the pointee first: no cycles
+        auto sp = std::allocate_shared<T>(ArenaAlloc<T>{}, std::move(val));
+        pool().push_back(sp);
+        return sp;
+    }
+    static std::string show(const std::shared_ptr<T>& v, bool canon) {
+        if (!v) return "n";
+        if (canon) { const int l = labels().get(v.get()); return "&" + std::to_string(l) + "(" + Codec<T>::show(*v, canon) + ")"; }
+        char b[32]; std::snprintf(b, sizeof b, "%llx", static_cast<unsigned long long>(reinterpret_cast<std::uintptr_t>(v.get())));
+        return "&" + std::string(b) + "(" + Codec<T>::show(*v, canon) + ")";
+    }
+};
+
 // ---- pair / tuple / variant ------------------------------------------------------------
 template <class A, class B> struct Codec<std::pair<A, B>> {
     static std::string ty() { return "t(" + Codec<A>::ty() + "," + Codec<B>::ty() + ")"; }
@@ -228,7 +295,9 @@ template <class A, class B> struct Codec<std::pair<A, B>> {
         A a = Codec<A>::gen(r, c); B b = Codec<B>::gen(r, c); return std::pair<A, B>(std::move(a), std::move(b));
     }
     static std::string show(const std::pair<A, B>& v, bool canon) {
-        return "[" + Codec<A>::show(v.first, canon) + "," + Codec<B>::show(v.second, canon) + "]";
+        const std::string a = Codec<A>::show(v.first, canon);      // sequenced: rendering assigns pointer labels
+        const std::string b = Codec<B>::show(v.second, canon);
+        return "[" + a + "," + b + "]";
     }
 };
 template <class... Ts> struct Codec<std::tuple<Ts...>> {
@@ -305,10 +374,14 @@ template <class K, class V> struct Codec<std::unordered_map<K, V>> {
         for (size_t i = 0; i < n; ++i) { K k = Codec<K>::gen(r, c); m.emplace(std::move(k), Codec<V>::gen(r, d)); }
         return m;
     }
+    // canon: entries in the order of their KEY text (keys are unique, so this is the order of the entry
+    // texts too); the values are rendered in that order because rendering assigns pointer labels
     static std::string show(const M& v, bool canon) {
+        std::vector<std::pair<std::string, const V*>> ks;
+        for (const auto& e : v) ks.emplace_back(Codec<K>::show(e.first, canon), &e.second);
+        if (canon) std::sort(ks.begin(), ks.end(), [](const auto& a, const auto& b) { return a.first < b.first; });
         std::vector<std::string> xs;
-        for (const auto& e : v) xs.push_back("[" + Codec<K>::show(e.first, canon) + "," + Codec<V>::show(e.second, canon) + "]");
-        if (canon) std::sort(xs.begin(), xs.end());
+        for (const auto& e : ks) xs.push_back("[" + e.first + "," + Codec<V>::show(*e.second, canon) + "]");
         return joinList(xs);
     }
 };
@@ -367,6 +440,52 @@ template <> struct Codec<Outer> {
                           Codec<std::variant<int, std::string, Rec>>::show(v.what, canon),
                           Codec<std::unordered_map<std::string, double>>::show(v.values, canon),
                           Codec<std::set<std::pair<int, int>>>::show(v.cells, canon) });
+    }
+};
+
+// ---- classes holding shared_ptr, shaped like Well / ScheduleState ---------------------------------
+struct WellLike {
+    int id = 0;
+    std::shared_ptr<double> limit;
+    std::shared_ptr<Rec> conns;
+    template <class S> void serializeOp(S& s) { s(id); s(limit); s(conns); }
+};
+template <> struct Codec<WellLike> {
+    static std::string ty() { return "c(i4," + Codec<std::shared_ptr<double>>::ty() + "," + Codec<std::shared_ptr<Rec>>::ty() + ")"; }
+    static WellLike gen(vh::Rng& r, const GenCfg& c) {
+        WellLike w; w.id = Codec<int>::gen(r, c); w.limit = Codec<std::shared_ptr<double>>::gen(r, c);
+        w.conns = Codec<std::shared_ptr<Rec>>::gen(r, c); return w;
+    }
+    static std::string show(const WellLike& v, bool canon) {
+        const std::string a = Codec<int>::show(v.id, canon);
+        const std::string b = Codec<std::shared_ptr<double>>::show(v.limit, canon);
+        const std::string c = Codec<std::shared_ptr<Rec>>::show(v.conns, canon);
+        return joinList({ a, b, c });
+    }
+};
+struct StepLike {
+    std::shared_ptr<std::string> title;                                   // ptr_member<T>
+    std::unordered_map<std::string, std::shared_ptr<WellLike>> wells;     // map_member<K,T>
+    std::vector<std::shared_ptr<WellLike>> order;
+    std::optional<std::shared_ptr<Rec>> extra;
+    std::map<int, std::shared_ptr<Rec>> byId;
+    template <class S> void serializeOp(S& s) { s(title); s(wells); s(order); s(extra); s(byId); }
+};
+template <> struct Codec<StepLike> {
+    using A = std::shared_ptr<std::string>; using B = std::unordered_map<std::string, std::shared_ptr<WellLike>>;
+    using C = std::vector<std::shared_ptr<WellLike>>; using D = std::optional<std::shared_ptr<Rec>>; using E = std::map<int, std::shared_ptr<Rec>>;
+    static std::string ty() { return "c(" + Codec<A>::ty() + "," + Codec<B>::ty() + "," + Codec<C>::ty() + "," + Codec<D>::ty() + "," + Codec<E>::ty() + ")"; }
+    static StepLike gen(vh::Rng& r, const GenCfg& c) {
+        StepLike x; x.title = Codec<A>::gen(r, c); x.wells = Codec<B>::gen(r, c); x.order = Codec<C>::gen(r, c);
+        x.extra = Codec<D>::gen(r, c); x.byId = Codec<E>::gen(r, c); return x;
+    }
+    static std::string show(const StepLike& v, bool canon) {     // one member after the other: labels follow the traversal
+        const std::string a = Codec<A>::show(v.title, canon);
+        const std::string b = Codec<B>::show(v.wells, canon);
+        const std::string c = Codec<C>::show(v.order, canon);
+        const std::string d = Codec<D>::show(v.extra, canon);
+        const std::string e = Codec<E>::show(v.byId, canon);
+        return joinList({ a, b, c, d, e });
     }
 };
 
